@@ -57,6 +57,10 @@ func (d *deps) parsePkt(isServer bool, pkt []byte) string {
 	return d.drv.Call("parsepkt %s %s", s, vlib.Hex(pkt))
 }
 
+func (d *deps) dd(kind, ok, ops string) string {
+	return d.drv.Call("dd %s %s %s", kind, ok, ops)
+}
+
 func (d *deps) fmm(mark, buf []byte, start, max int, tail bool) string {
 	t := "0"
 	if tail {
@@ -68,27 +72,27 @@ func (d *deps) fmm(mark, buf []byte, start, max int, tail bool) string {
 var both = []string{"client", "server"}
 
 var shards = []shard{
-	{Name: "obfs4-server-hs", T: "obfs4", Roles: []string{"server"}, Stage: "hs", Gens: lib.O4HsGens, Quick: 4800, Thorough: 60000, CutAll: 2,
+	{Name: "obfs4-server-hs", T: "obfs4", Roles: []string{"server"}, NeedsDrv: true, Stage: "hs", Gens: lib.O4HsGens, Quick: 4800, Thorough: 60000, CutAll: 2,
 		Run: func(x *lib.Ctx, d *deps) { lib.RunO4Hs(x) }},
-	{Name: "obfs4-client-hs", T: "obfs4", Roles: []string{"client"}, Stage: "hs", Gens: lib.O4HsGens, Quick: 4800, Thorough: 60000, CutAll: 2,
+	{Name: "obfs4-client-hs", T: "obfs4", Roles: []string{"client"}, NeedsDrv: true, Stage: "hs", Gens: lib.O4HsGens, Quick: 4800, Thorough: 60000, CutAll: 2,
 		Run: func(x *lib.Ctx, d *deps) { lib.RunO4Hs(x) }},
 	{Name: "obfs4-server-data", T: "obfs4", Roles: []string{"server"}, Stage: "data", Gens: lib.O4DataGens, Quick: 3600, Thorough: 48000, CutAll: 2, NeedsDrv: true, Iats: true,
 		Run: func(x *lib.Ctx, d *deps) { lib.RunO4Data(x, d.parsePkt) }},
 	{Name: "obfs4-client-data", T: "obfs4", Roles: []string{"client"}, Stage: "data", Gens: lib.O4DataGens, Quick: 3600, Thorough: 48000, CutAll: 2, NeedsDrv: true, Iats: true,
 		Run: func(x *lib.Ctx, d *deps) { lib.RunO4Data(x, d.parsePkt) }},
-	{Name: "obfs3-hs", T: "obfs3", Roles: both, Stage: "hs", Gens: append(append([]string{}, lib.SymHsGens...), lib.Obfs3KeyGens...), Quick: 3000, Thorough: 32000, CutAll: 1,
+	{Name: "obfs3-hs", T: "obfs3", Roles: both, NeedsDrv: true, Stage: "hs", Gens: append(append([]string{}, lib.SymHsGens...), lib.Obfs3KeyGens...), Quick: 3000, Thorough: 32000, CutAll: 1,
 		Run: func(x *lib.Ctx, d *deps) { lib.RunSymHs(x) }},
 	{Name: "obfs3-data", T: "obfs3", Roles: both, Stage: "data", Gens: lib.SymDataGens, Quick: 2400, Thorough: 24000, CutAll: 1,
 		Run: func(x *lib.Ctx, d *deps) { lib.RunSymData(x) }},
-	{Name: "obfs2-hs", T: "obfs2", Roles: both, Stage: "hs", Gens: append(append([]string{}, lib.SymHsGens...), lib.Obfs2CraftGens...), Quick: 6000, Thorough: 80000, CutAll: 1,
+	{Name: "obfs2-hs", T: "obfs2", Roles: both, NeedsDrv: true, Stage: "hs", Gens: append(append([]string{}, lib.SymHsGens...), lib.Obfs2CraftGens...), Quick: 6000, Thorough: 80000, CutAll: 1,
 		Run: func(x *lib.Ctx, d *deps) { lib.RunSymHs(x) }},
 	{Name: "obfs2-data", T: "obfs2", Roles: both, Stage: "data", Gens: lib.SymDataGens, Quick: 4000, Thorough: 40000, CutAll: 1,
 		Run: func(x *lib.Ctx, d *deps) { lib.RunSymData(x) }},
-	{Name: "scramblesuit-hs", T: "scramblesuit", Roles: []string{"client"}, Stage: "hs", Gens: lib.SSHsGens, Quick: 3000, Thorough: 32000, CutAll: 2,
+	{Name: "scramblesuit-hs", T: "scramblesuit", Roles: []string{"client"}, NeedsDrv: true, Stage: "hs", Gens: lib.SSHsGens, Quick: 3000, Thorough: 32000, CutAll: 2,
 		Run: func(x *lib.Ctx, d *deps) { lib.RunSSHs(x) }},
-	{Name: "scramblesuit-data", T: "scramblesuit", Roles: []string{"client"}, Stage: "data", Gens: lib.SSDataGens, Quick: 3000, Thorough: 32000, CutAll: 2,
+	{Name: "scramblesuit-data", T: "scramblesuit", Roles: []string{"client"}, NeedsDrv: true, Stage: "data", Gens: lib.SSDataGens, Quick: 3000, Thorough: 32000, CutAll: 2,
 		Run: func(x *lib.Ctx, d *deps) { lib.RunSSData(x) }},
-	{Name: "socks5", T: "socks5", Roles: []string{"server"}, Stage: "hs", Gens: lib.SocksGens, Quick: 12000, Thorough: 160000, CutAll: 20,
+	{Name: "socks5", T: "socks5", Roles: []string{"server"}, NeedsDrv: true, Stage: "hs", Gens: lib.SocksGens, Quick: 12000, Thorough: 160000, CutAll: 20,
 		Run: func(x *lib.Ctx, d *deps) { lib.RunSocks(x) }},
 	{Name: "meek", T: "meek_lite", Roles: []string{"client"}, Stage: "data", Gens: lib.MeekGens, Quick: 90, Thorough: 600, NoCuts: true,
 		Run: func(x *lib.Ctx, d *deps) { lib.RunMeek(x) }},
@@ -159,6 +163,9 @@ func runCase(r *vlib.Run, s *shard, d *deps, c *lib.Case) (x *lib.Ctx) {
 	tape := vlib.InstallRandTape(c.Seed)
 	csrand.Reader = tape
 	x = lib.NewCtx(r, c)
+	if d != nil && d.drv != nil {
+		x.DD = d.dd
+	}
 	if violateHook != nil {
 		x.ViolateHook = violateHook(c)
 	}
